@@ -45,6 +45,13 @@ def run (j : Json) : R Json := do
     let ys ← fRats j "ys"
     pure (obj [("cells", ofList (ofList ofOFace) (tensorCells xs ys)),
                ("volume_sum", ofRat (tensorVolumeSum xs ys))])
+  | "tensor3" =>
+    let xs ← fRats j "xs"
+    let ys ← fRats j "ys"
+    let zs ← fRats j "zs"
+    pure (obj [("cells", ofList (ofList (fun f : List P3 × Rat => obj [("nodes", ofList ofP3 f.1), ("sign", ofRat f.2)]))
+                  (tensorCells3 xs ys zs)),
+               ("volume_sum", ofRat (tensorVolumeSum3 xs ys zs))])
   | "geom1" =>
     let nodes ← (← fRatss j "nodes").mapM toP3
     let faces ← fNats j "faces"
